@@ -1,7 +1,7 @@
 #!/bin/bash
 # usage: mutbatch.sh <slot> <pid> [check ids...]  - evaluate all mutants of <pid> found under /tmp/seed/out/<pid>
 slot=$1; pid=$2; shift; shift
-for d in /tmp/seed/out/$pid/m*/; do
+for d in ${SEED_OUT:-/tmp/seed/out}/$pid/m*/; do
   [ -f $d/patch.diff ] || continue
   python3 /verif/tools/mutrun.py $slot $pid $d/patch.diff "$@" >> /tmp/mut/results.log 2>&1
 done
